@@ -1,5 +1,148 @@
-//! C09 monitors (Z1-Z6).
-use crate::monitors::Produced;
+//! C09 monitors (Z1-Z5; Z6 lives in mon_plan, Z7 in monitors::probe_input).
+
+use bitcoin::{ScriptBuf, Sequence, TxIn, Witness};
+use miniscript::descriptor::ShInner;
+use miniscript::{Descriptor, Miniscript, MiniscriptKey, ScriptContext, ToPublicKey};
+
+use crate::monitors::{raise_class, Produced};
 use crate::sim::World;
-use crate::vm::ExecTrace;
-pub fn check_sizes(_w: &mut World, _actor: &str, _i: usize, _p: &Produced, _t: Option<&ExecTrace>) {}
+use crate::vm::{self, ExecTrace};
+
+fn varint(n: usize) -> usize {
+    if n < 253 {
+        1
+    } else if n <= 0xffff {
+        3
+    } else {
+        5
+    }
+}
+
+fn items_size(items: &[Vec<u8>]) -> usize { items.iter().map(|i| varint(i.len()) + i.len()).sum() }
+
+struct Figures {
+    script_size: usize,
+    encoded_len: usize,
+    max_elems: Option<usize>,
+    max_size: Option<usize>,
+    ops_bound: Option<usize>,
+    stack_bound: Option<usize>,
+}
+
+fn figures<Pk: MiniscriptKey + ToPublicKey, Ctx: ScriptContext>(ms: &Miniscript<Pk, Ctx>) -> Figures {
+    Figures {
+        script_size: ms.script_size(),
+        encoded_len: ms.encode().len(),
+        max_elems: ms.max_satisfaction_witness_elements().ok(),
+        max_size: ms.max_satisfaction_size().ok(),
+        ops_bound: ms.ext.sat_data.map(|d| ms.ext.static_ops + d.max_exec_op_count),
+        stack_bound: ms.ext.sat_data.map(|d| d.max_witness_stack_count + d.max_exec_stack_count),
+    }
+}
+
+pub fn check_sizes(w: &mut World, actor: &str, i: usize, p: &Produced, t: Option<&ExecTrace>) {
+    let env = w.env.clone();
+    let desc = &env.inputs[i].desc;
+    let text = &env.inputs[i].spec.text;
+    let kind = env.inputs[i].kind;
+    let mut v: Vec<(String, String)> = vec![]; // (class suffix, detail)
+    // Z4: weight
+    let txin = TxIn { previous_output: Default::default(), script_sig: p.ss.clone(), sequence: Sequence::MAX, witness: Witness::from_slice(&p.wit) };
+    let diff = txin.segwit_weight().to_wu() as i64 - TxIn::default().segwit_weight().to_wu() as i64;
+    match desc.max_weight_to_satisfy() {
+        Ok(mw) => {
+            if diff > mw.to_wu() as i64 {
+                v.push(("Z4".into(), format!("max_weight_to_satisfy {} < measured weight difference {} ({})", mw.to_wu(), diff, p.label)));
+            }
+        }
+        Err(_) => {
+            // a taproot key-path spend is not covered by the script-path figures: only report when
+            // the produced satisfaction is a script-path or non-taproot one
+            let key_path = matches!(kind, crate::gen::OutKind::TrScript | crate::gen::OutKind::TrKey) && p.wit.len() == 1;
+            if !key_path {
+                v.push(("Z4-unsat".into(), format!("max_weight_to_satisfy says unsatisfiable but {} produced a satisfaction", p.label)));
+            }
+        }
+    }
+    // per-script figures
+    let (fig, items): (Option<Figures>, Vec<Vec<u8>>) = match desc {
+        Descriptor::Wsh(wsh) => (Some(figures(wsh.as_inner())), p.wit[..p.wit.len().saturating_sub(1)].to_vec()),
+        Descriptor::Sh(sh) => match sh.as_inner() {
+            ShInner::Wsh(wsh) => (Some(figures(wsh.as_inner())), p.wit[..p.wit.len().saturating_sub(1)].to_vec()),
+            ShInner::Ms(ms) => {
+                let mut it = vm::parse_pushes(p.ss.as_bytes()).unwrap_or_default();
+                it.pop();
+                (Some(figures(ms)), it)
+            }
+            ShInner::Wpkh(_) => (None, vec![]),
+        },
+        Descriptor::Bare(b) => (Some(figures(b.as_inner())), vm::parse_pushes(p.ss.as_bytes()).unwrap_or_default()),
+        Descriptor::Tr(tr) => {
+            if p.wit.len() >= 2 {
+                let script = &p.wit[p.wit.len() - 2];
+                let mut f = None;
+                for leaf in tr.leaves() {
+                    if leaf.miniscript().encode().as_bytes() == &script[..] {
+                        f = Some(figures(&**leaf.miniscript()));
+                        break;
+                    }
+                }
+                (f, p.wit[..p.wit.len() - 2].to_vec())
+            } else {
+                (None, vec![])
+            }
+        }
+        _ => (None, vec![]),
+    };
+    if let Some(f) = fig {
+        if f.script_size != f.encoded_len {
+            v.push(("Z1".into(), format!("script_size() = {} but the encoding has {} bytes", f.script_size, f.encoded_len)));
+        }
+        let legacy = matches!(kind, crate::gen::OutKind::ShMs | crate::gen::OutKind::Bare);
+        match f.max_elems {
+            // max_satisfaction_witness_elements counts the script itself as one element
+            Some(m) => {
+                if items.len() + 1 > m {
+                    v.push(("Z2".into(), format!("max_satisfaction_witness_elements {} < {} items + script ({})", m, items.len(), p.label)));
+                }
+            }
+            None => v.push(("Z2-unsat".into(), format!("max_satisfaction_witness_elements says unsatisfiable but {} produced a satisfaction", p.label))),
+        }
+        match f.max_size {
+            Some(m) => {
+                let measured = if legacy {
+                    // scriptSig bytes of the satisfaction part (without the redeemScript push)
+                    let mut b = vec![];
+                    for it in &items {
+                        vm::push_data(&mut b, it);
+                    }
+                    b.len()
+                } else {
+                    items_size(&items)
+                };
+                if measured > m {
+                    v.push(("Z3".into(), format!("max_satisfaction_size {} < measured {} bytes ({})", m, measured, p.label)));
+                }
+            }
+            None => v.push(("Z3-unsat".into(), format!("max_satisfaction_size says unsatisfiable but {} produced a satisfaction", p.label))),
+        }
+        if let Some(t) = t {
+            if kind != crate::gen::OutKind::TrScript {
+                if let Some(b) = f.ops_bound {
+                    if t.op_count > b {
+                        v.push(("Z5-ops".into(), format!("static op count bound {} < executed op count {} as Core counts it ({})", b, t.op_count, p.label)));
+                    }
+                }
+            }
+            // The static stack figure (max_witness_stack_count + max_exec_stack_count) is not among the
+            // figures the property lists as upper bounds; it only feeds the 1000-element limit check,
+            // which Z7 monitors directly (a sane descriptor must never hit StackSize on R1).
+            let _ = f.stack_bound;
+        }
+        w.stats.probe("z_checked");
+    }
+    if let Some((cls, detail)) = v.into_iter().next() {
+        raise_class(w, "C09", &cls.clone(), format!("{}:{:?}", cls, kind), format!("{}: desc={}", detail, text), actor);
+    }
+    let _ = ScriptBuf::new();
+}
